@@ -17,7 +17,7 @@ TRUSTED_BASE = [
     "axioms: none (every theorem prints 'Closed under the global context')",
     "hand-written Gallina model coq/MpScopeModel.v of CVariableKey::operator==, CMsgPackReadObjectScope (ReadKey, FindValueByKey, ResetKey, SerializeValue, Open*Scope, OnFinishChildScope, VisitKeys, destructor), CMsgPackReadArrayScope, CMsgPackReadBinaryScope in include/bitserializer/msgpack_archive.h, over the reader model coq/MpModel.v (family mp: C05/C06/C07); specification coq/MpScopeSpec.v (association-list semantics of request histories) over the reference decoder coq/MpSpec.v",
     "modelled, not verified: C++ operator== on float/double = IEEE equality on bit patterns (ieee_eq32/64); RAII destruction order (child scope destroyed before the parent continues; during unwinding the derived destructor body runs, then ~CMsgPackScopeBase notifies the parent); the destructors' try { } catch (...) { } = a failing skip stops the loop and leaves the reader where SkipValue threw (skip_at); no destructor of the scopes lets an exception escape (the model has no terminate outcome; an implementation TERMINATE is a disagreement); double->float / float->double conversions supplied by the driver; string_view keys of the stream reader alias the reader's buffer (not modelled: the model compares key values)",
-    "the stream reader under the scopes: for keyed value and object requests (RGet / RObj, nested, any order) on a seekable stream T_C03_stream_equals_memory (Properties_C03s.v: the scope model re-expressed as a client of the reader interface, coq/MpScopeClient.v, composed with T_C10mp_adaptive_stream_equals_memory of the mpstream family and its models coq/MpStreamModel.v / StreamModel.v); for arrays, byte arrays and VisitKeys the stream reader (kinds s, S) is tied to the same model by this correspondence run only",
+    "the stream reader under the scopes: for keyed value / object / array requests, array element requests, VisitKeys and VisitKeys callbacks (RGet / RObj / RArr / AGet / AObj / AArr / AEnd / RVisit / REach with VSkip / VGet / VObj / VArr; nested, any order) on a seekable stream T_C03_stream_equals_memory (Properties_C03s.v: the scope model re-expressed as a client of the reader interface, coq/MpScopeClient.v, composed with T_C10mp_adaptive_stream_equals_memory of the mpstream family and its models coq/MpStreamModel.v / StreamModel.v); for byte arrays, guarded / throwing requests, histories ending in an error and non-seekable streams the stream reader (kinds s, S) is tied to the same model by this correspondence run only",
     "extraction: ExtrOcamlBasic only; trusted glue ml/glue.ml ml/glue_mpscope.ml ml/mpscope_driver.ml harness/drv_mpscope.cpp props/C03.py props/mp_common.py (independent Python encoder/decoder + history evaluator used for input generation and for judging)",
 ]
 ASSUMPTIONS = [
